@@ -396,19 +396,33 @@ def extreme (h : Heap) (isMax : Bool) : List Val → R Val
         | .ok false => go ys best
     go xs x
 
-/-- insertion into a sorted prefix, *after* every element that is not greater: stable insertion
-    sort by `<` (same result as any stable sort when all comparisons succeed) -/
-def insertSorted (h : Heap) (x : Val × Val) : List (Val × Val) → R (List (Val × Val))
-  | [] => .ok [x]
-  | y :: ys =>
-    match pyLt' h x.1 y.1 with
+/-- stable merge of two sorted runs: an element of the right run is taken first only if it is
+    strictly smaller (so equal keys keep their original order); `acc` is reversed -/
+def mergeRuns (h : Heap) : Nat → List (Val × Val) → List (Val × Val) → List (Val × Val) → R (List (Val × Val))
+  | 0, xs, ys, acc => .ok (acc.reverse ++ xs ++ ys)
+  | _ + 1, [], ys, acc => .ok (acc.reverse ++ ys)
+  | _ + 1, xs, [], acc => .ok (acc.reverse ++ xs)
+  | f + 1, x :: xs, y :: ys, acc =>
+    match pyLt' h y.1 x.1 with
     | .error e => .error e
-    | .ok true => .ok (x :: y :: ys)
-    | .ok false => (insertSorted h x ys).map (y :: ·)
+    | .ok true => mergeRuns h f (x :: xs) ys (y :: acc)
+    | .ok false => mergeRuns h f xs (y :: ys) (x :: acc)
 
-/-- stable sort of (key, payload) pairs by key -/
+/-- stable merge sort of (key, payload) pairs by key with Python's `<` (same result as any
+    stable sort when all comparisons succeed) -/
+def sortPairsAux (h : Heap) : Nat → List (Val × Val) → R (List (Val × Val))
+  | 0, xs => .ok xs
+  | f + 1, xs =>
+    if xs.length ≤ 1 then .ok xs
+    else
+      let n := xs.length / 2
+      match sortPairsAux h f (xs.take n), sortPairsAux h f (xs.drop n) with
+      | .ok a, .ok b => mergeRuns h (xs.length + 1) a b []
+      | .error e, _ => .error e
+      | _, .error e => .error e
+
 def sortPairs (h : Heap) (xs : List (Val × Val)) : R (List (Val × Val)) :=
-  xs.foldlM (fun acc x => insertSorted h x acc) []
+  sortPairsAux h (xs.length + 1) xs
 
 /-- are all keys pairwise comparable with `<`?  (Python's sort raises TypeError iff some
     comparison it performs fails; any comparison sort must compare across the incomparable
@@ -422,12 +436,10 @@ def allComparable (h : Heap) : List Val → R Unit
     | .error e => .error e
     | .ok _ => allComparable h (y :: r)
 
-/-- `reverse=` argument of sorted(): must be int-like -/
-def reverseFlag : Val → R Bool
-  | .bool b => .ok b
-  | .int i => .ok (i ≠ 0)
+/-- `reverse=` argument of sorted(): any object, by truthiness (CPython 3.12) -/
+def reverseFlag (h : Heap) : Val → R Bool
   | .opaque _ => U "reverse-opaque"
-  | _ => .error .typeError
+  | v => .ok (truthy h v)
 
 /-- `sorted(items, key=keys, reverse=rev)` given the precomputed keys: stable; `reverse=True`
     keeps the original order of equal elements (Python sorts the reversed list and reverses back) -/
@@ -497,6 +509,10 @@ def bRegex (name : String) (args : List Val) (s : BState) : BR :=
 
 /-! ### the table -/
 
+/-- CPython refuses `str(int)` beyond `sys.int_max_str_digits` = 4300 digits (ValueError); the
+    numeric builtins that go through `Decimal(str(<int>))` hit it for huge values -/
+def intStrTooLong (d : Dec) : Bool := decide ((Dec.ndigits d.coeff : Int) + d.exp > 4300)
+
 def bRound (args : List Val) : R Val :=
   let go (v : Val) (nd : Option Val) : R Val :=
     let ndI : R (Option Int) := match nd with
@@ -509,7 +525,8 @@ def bRound (args : List Val) : R Val :=
       match v with
       | .dec d _ =>
         (match n with
-         | none => .ok (.dec (Dec.ofInt (d.toIntRound .halfEven)) true)
+         | none => if intStrTooLong d then .error .valueError
+                   else .ok (.dec (Dec.ofInt (d.toIntRound .halfEven)) true)
          | some k => match Dec.quantize d (-k) with
            | .ok r => .ok (.dec r true)
            | .error sg => .error (.decimal sg))
@@ -534,7 +551,8 @@ def bRound (args : List Val) : R Val :=
 
 def bFloorCeil (mode : Dec.Rounding) (args : List Val) : R Val :=
   match args with
-  | [.dec d _] => .ok (.dec (Dec.ofInt (d.toIntRound mode)) true)
+  | [.dec d _] => if intStrTooLong d then .error .valueError
+                  else .ok (.dec (Dec.ofInt (d.toIntRound mode)) true)
   | [.opaque _] => U "floor-opaque"
   | [v] => match toInt? v with
     | some i => .ok (.dec (Dec.ofInt i) true)
@@ -544,12 +562,21 @@ def bFloorCeil (mode : Dec.Rounding) (args : List Val) : R Val :=
 /-- cast of an optional count / index argument with `int()` -/
 def intArg (v : Val) : R Int := pyInt v
 
+/-- `str` and `dict` are Python *types*: passed as data they expose unbound methods
+    (`dict.keys`, `str.split`, …) whose behaviour the model does not describe -/
+def isTypeObject : Val → Bool
+  | .builtin "str" => true | .builtin "dict" => true | _ => false
+
 def callPure (name : String) (args : List Val) (s : BState) : BR :=
   let h := s.heap
+  if name != "list" && args.any isTypeObject then U "type-object-arg" else
   match name, args with
   | "len", [v] => (pyLen h v).map (fun n => (.int n, s))
   | "len", _ => .error .typeError
-  | "int", [v] => (pyInt v).map (fun i => (.dec (Dec.ofInt i) true, s))
+  | "int", [v] =>
+    (match v with
+     | .dec d _ => if intStrTooLong d then U "int-huge" else ret (.dec (Dec.ofInt d.toInt) true) s
+     | _ => (pyInt v).map (fun i => (.dec (Dec.ofInt i) true, s)))
   | "int", _ => .error .typeError
   | "float", [v] =>
     (match v with
@@ -708,17 +735,21 @@ def callPure (name : String) (args : List Val) (s : BState) : BR :=
   | "__setitem_with_op__", _ => .error .typeError
   | "join", c :: rest =>
     if rest.length > 1 then .error .typeError else
-    (match iterItems h c with
+    -- `sep.join(map(str, container))`: the attribute `sep.join` is looked up first
+    let sepR : R (List Char) := match rest with
+      | [] => .ok ['\n']
+      | [.str sp] => .ok sp
+      | [.opaque _] => U "join-opaque"
+      | _ => .error .attributeError
+    (match sepR with
      | .error e => .error e
-     | .ok items =>
-       match mapR (pyStr h) items with
+     | .ok sp =>
+       match iterItems h c with
        | .error e => .error e
-       | .ok parts =>
-         match rest with
-         | [] => ret (.str (Str.join ['\n'] parts)) s
-         | [.str sp] => ret (.str (Str.join sp parts)) s
-         | [.opaque _] => U "join-opaque"
-         | _ => .error .attributeError)
+       | .ok items =>
+         match mapR (pyStr h) items with
+         | .error e => .error e
+         | .ok parts => ret (.str (Str.join sp parts)) s)
   | "join", [] => .error .typeError
   | "split", sv :: rest =>
     if rest.length > 2 then .error .typeError else
